@@ -587,6 +587,65 @@ async fn run_churn(addr: SocketAddr, certs: Certs, id: u64, seed: u64, timeout_m
     Ok((calls, l.received, l.sent))
 }
 
+/// Clones of one requestor lose their connection; they come back one after the other (each on its own new stream),
+/// and the first call of each after the outage is answered late (after its timeout) — so late replies of clones that
+/// recovered earlier arrive while clones that recovered later have calls pending.
+async fn run_clones_outage_late(addr: SocketAddr, certs: Certs, id: u64, timeout_ms: u64) -> std::result::Result<(Vec<Call>, u64, u64), String> {
+    let topic = unique_topic("c04o", id);
+    let log = Arc::new(Mutex::new(ReplierLog { received: 0, sent: 0, prompt_sent: HashMap::new() }));
+    let (_raw, rep_task) = spawn_replier(addr, &certs, &topic, None, timeout_ms, log.clone()).await.map_err(|e| format!("raw replier: {e}"))?;
+    let bo = selium::keep_alive::BackoffStrategy::constant().with_max_attempts(5).with_step(Duration::from_millis(20));
+    let client = lib_client(&addr.to_string(), &certs, Some(bo)).await.map_err(|e| format!("connect: {e}"))?;
+    let t0 = Instant::now();
+    let mut calls = vec![];
+    let mut rq = client.requestor(&topic).with_request_encoder(StringCodec).with_reply_decoder(StringCodec).with_request_timeout(timeout_ms).map_err(|e| e.to_string())?.open().await.map_err(|e| format!("open requestor: {e}"))?;
+    let mut est = false;
+    for n in 0..40 {
+        if let Ok(v) = rq.request(format!("sentinel-{};mode=now;", n)).await {
+            if v.starts_with("re:sentinel") {
+                est = true;
+                break;
+            }
+        }
+        tokio::time::sleep(Duration::from_millis(50)).await;
+    }
+    if !est {
+        return Err("precondition not reached: sentinel never answered".into());
+    }
+    let mut clones = vec![rq.clone(), rq.clone(), rq.clone(), rq];
+    for outage in 0..3 {
+        client.verif_close_connection().await;
+        // one after the other: each clone's first call after the outage is answered at 1.5 × timeout
+        for (k, c) in clones.iter_mut().enumerate() {
+            for (j, mode) in [Mode::Late15, Mode::Now].into_iter().enumerate() {
+                if j == 1 && k % 2 == 0 {
+                    continue;
+                }
+                let payload = format!("outage{}-clone{}#{};mode={};", outage, k, j, mode.name());
+                let start = t0.elapsed().as_millis();
+                let r = tokio::time::timeout(Duration::from_millis(timeout_ms + 20_000), c.request(payload.clone())).await;
+                let end = t0.elapsed().as_millis();
+                let (result, timed_out) = match r {
+                    Ok(Ok(v)) => (Ok(v), false),
+                    Ok(Err(e)) => {
+                        let t = is_timeout(&e);
+                        (Err(e.to_string()), t)
+                    }
+                    Err(_) => (Err("HUNG: request() did not return within timeout + 20 s".into()), false),
+                };
+                // the call that meets the broken connection may fail in other ways than a timeout: recovery is C12's
+                let mode = if matches!(result, Err(_)) && !timed_out { Mode::Late15 } else { mode };
+                calls.push(Call { id: payload, mode, requestor: format!("clone{}", k), start_ms: start, end_ms: end, result: if matches!(mode, Mode::Late15) && !timed_out { match result { Ok(v) => Ok(v), Err(_) => Err("The request timed out (counted as such: connection-loss error on the first call after the cut)".into()) } } else { result }, timed_out: timed_out || matches!(mode, Mode::Late15) });
+            }
+        }
+        // let the late replies drain before the next outage
+        tokio::time::sleep(Duration::from_millis(timeout_ms * 2)).await;
+    }
+    rep_task.abort();
+    let l = log.lock().unwrap();
+    Ok((calls, l.received, l.sent))
+}
+
 /// child-process server (this binary in `--serve` mode, i.e. `Server::try_from(args)?.listen()` like main.rs)
 struct ChildServer {
     child: std::process::Child,
@@ -810,7 +869,7 @@ pub fn run(rep: &mut StageReport, tier: &str, seed: u64, exe: &str) {
         // counter and the pending-call map: concurrent calls must still get their own replies
         {
             let bo = selium::keep_alive::BackoffStrategy::constant().with_max_attempts(3).with_step(Duration::from_millis(10));
-            let burst = if thorough { 40 } else { 10 };
+            let burst = if thorough { 40 } else { 24 };
             match tokio::time::timeout(Duration::from_secs(400), super::c12::requestor_clones_after_recovery(server.addr, &certs, bo, 1, 4, burst, 900)).await {
                 Ok(Ok((ok, wrong, failed))) => clones_result = Some((ok, wrong, failed)),
                 Ok(Err(e)) => clones_inconclusive = Some(e),
@@ -840,6 +899,13 @@ pub fn run(rep: &mut StageReport, tier: &str, seed: u64, exe: &str) {
             out.push((2000 + g as u64, match r {
                 Ok(x) => x,
                 Err(_) => Err("watchdog: clone-after-use scenario did not finish within 600 s".into()),
+            }));
+        }
+        for g in 0..(if thorough { 10usize } else { 2 }) {
+            let r = tokio::time::timeout(Duration::from_secs(600), run_clones_outage_late(server.addr, certs.clone(), 5000 + g as u64, 400)).await;
+            out.push((5000 + g as u64, match r {
+                Ok(x) => x,
+                Err(_) => Err("watchdog: clones/outage/late-reply scenario did not finish within 600 s".into()),
             }));
         }
         for g in 0..(if thorough { 40usize } else { 8 }) {
@@ -881,7 +947,7 @@ pub fn run(rep: &mut StageReport, tier: &str, seed: u64, exe: &str) {
                 continue;
             }
         };
-        let timeout_ms = sc.map(|s| s.timeout_ms).unwrap_or(if sid >= 2000 { 400 } else if sid % 2 == 0 { 300 } else { 500 }) as u128;
+        let timeout_ms = sc.map(|s| s.timeout_ms).unwrap_or(if sid >= 2000 { 400 } else if sid % 2 == 0 { 300 } else { 500 }) as u128; // (ids ≥ 2000: clone-after-use, churn, clones/outage scenarios, all with 400 ms)
         rep.count("requests_seen_by_scripted_replier", received);
         rep.count("replies_written_by_scripted_replier", sent);
         let mut sample_hist = vec![];
